@@ -177,3 +177,222 @@ m('c04-helper-twin', ['C04'],
             result += FPI_INV * ((x_sqr + z) * expi(-x_sqr / z) +
                                  z * np.exp(-x_sqr / z))"""),
   expect='silent')
+
+# ---- C19 / C06 / C02 / C10 (mesh) ------------------------------------------
+m('c19-revert-f3', ['C19'],
+  (M, """            marked = marked_space
+            marked_space = []
+            for elem in marked:
+                if elem.children:
+                    marked_space.extend(elem.children)
+                else:
+                    marked_space.append(elem)
+
+            marked_space.sort(key=lambda elem: elem.level_space)
+            for elem in marked_space:
+                assert not elem.children
+                self.refine_space(elem)
+        print('Grading""", """            marked_space.sort(key=lambda elem: elem.level_space)
+            for elem in marked_space:
+                assert not elem.children
+                self.refine_space(elem)
+        print('Grading"""), rule='R-stale')
+m('c19-conds-swapped', ['C19'],
+  (M, """                if elem.h_t / K >= elem.h_x**sigma:
+                    marked_time.append(elem)
+                elif elem.h_x**sigma >= K * elem.h_t:
+                    marked_space.append(elem)""",
+   """                if elem.h_t / K >= elem.h_x**sigma:
+                    marked_space.append(elem)
+                elif elem.h_x**sigma >= K * elem.h_t:
+                    marked_time.append(elem)"""), rule='R-window')
+m('c19-strict', ['C19'],
+  (M, "                if elem.h_t / K >= elem.h_x**sigma:",
+   "                if elem.h_t / K > elem.h_x**sigma:"), rule='R-window')
+m('c19-wrong-K', ['C19'],
+  (M, "                elif elem.h_x**sigma >= K * elem.h_t:",
+   "                elif elem.h_x**sigma >= elem.h_t / K:"), rule='R-window')
+m('c19-time-unsorted', ['C19'],
+  (M, """            marked_time.sort(key=lambda elem: elem.level_time)
+            for elem in marked_time:
+                self.refine_time(elem)""",
+   """            for elem in marked_time:
+                self.refine_time(elem)"""), rule='R-stale')
+m('c19-rewrite-twin', ['C19'],
+  (M, "                if elem.h_t / K >= elem.h_x**sigma:",
+   "                if elem.h_t >= K * elem.h_x**sigma:"), expect='silent')
+m('c19-while-and', ['C19'],
+  (M, "        while marked_space or marked_time:",
+   "        while marked_space and marked_time:"), rule='R-window')
+
+m('c06-theta', ['C06'],
+  (M, """            cumsum += eta_sqr[i]
+            if cumsum >= eta_tot_sqr * theta**2:""",
+   """            cumsum += eta_sqr[i]
+            if cumsum >= eta_tot_sqr * theta:"""), rule='R-mark')
+m('c06-strict', ['C06'],
+  (M, """            cumsum += val
+            if cumsum >= eta_tot_sqr * theta**2:""",
+   """            cumsum += val
+            if cumsum > eta_tot_sqr * theta**2:"""), rule='R-mark')
+m('c06-break-before-mark', ['C06'],
+  (M, """        for i in s_idx:
+            marked.append(elems[i])
+            cumsum += eta_sqr[i]
+            if cumsum >= eta_tot_sqr * theta**2:
+                break""", """        for i in s_idx:
+            cumsum += eta_sqr[i]
+            if cumsum >= eta_tot_sqr * theta**2:
+                break
+            marked.append(elems[i])"""), rule='R-mark')
+m('c06-ascending', ['C06'],
+  (M, "        s_idx = list(reversed(np.argsort(eta_sqr)))",
+   "        s_idx = list(np.argsort(eta_sqr))"), rule='R-mark')
+m('c06-total-col0', ['C06'],
+  (M, """        errs.sort(reverse=True, key=lambda tup: tup[0])
+        eta_tot_sqr = np.sum(eta_sqr)""",
+   """        errs.sort(reverse=True, key=lambda tup: tup[0])
+        eta_tot_sqr = np.sum(eta_sqr[:, 0])"""), rule='R-mark')
+m('c06-no-reresolve', ['C06'],
+  (M, """        marked_space = []
+        for elem in marked[1]:
+            if elem.children:
+                marked_space.extend(elem.children)
+            else:
+                marked_space.append(elem)
+
+        marked_space.sort""", """        marked_space = list(marked[1])
+
+        marked_space.sort"""), rule='R-stale')
+m('c06-sort-other-axis', ['C06'],
+  (M, """        marked.sort(key=lambda elem: elem.level_time)
+        children_time = []""", """        marked.sort(key=lambda elem: elem.level_space)
+        children_time = []"""), rule='R-stale')
+m('c06-children-unsorted', ['C06'],
+  (M, "        children_time.sort(key=lambda elem: elem.level_space)\n", "\n"),
+  rule='R-stale')
+m('c06-axis-swapped', ['C06'],
+  (M, "            marked[refine_axis].append(elem)",
+   "            marked[1 - refine_axis].append(elem)"), rule='R-mark')
+m('c06-tags-swapped', ['C06'],
+  (M, "errs = [(val, elem, 0) for val, elem in zip(eta_sqr[:, 0], elems)]",
+   "errs = [(val, elem, 0) for val, elem in zip(eta_sqr[:, 1], elems)]"),
+  rule='R-mark')
+m('c06-no-reverse', ['C06'],
+  (M, "errs.sort(reverse=True, key=lambda tup: tup[0])",
+   "errs.sort(key=lambda tup: tup[0])"), rule='R-mark')
+m('c06-argsort-neg-twin', ['C06'],
+  (M, "        s_idx = list(reversed(np.argsort(eta_sqr)))",
+   "        s_idx = np.argsort(eta_sqr)[::-1]"), expect='silent')
+m('c06-mirror-twin', ['C06'],
+  (M, """            cumsum += eta_sqr[i]
+            if cumsum >= eta_tot_sqr * theta**2:""",
+   """            cumsum += eta_sqr[i]
+            if theta**2 * eta_tot_sqr <= cumsum:"""), expect='silent')
+
+m('c02-revert-f4', ['C02'],
+  (M, """        leaves = sorted(list(self.leaf_elements),
+                        key=lambda elem: elem.level_space)
+        for elem in leaves:
+            self.refine_space(elem)
+
+    def dorfler""", """        leaves = list(self.leaf_elements)
+        for elem in leaves:
+            self.refine_space(elem)
+
+    def dorfler"""), rule='R-stale')
+m('c02-uniform-stale', ['C02'],
+  (M, """        leaves = sorted(list(self.leaf_elements),
+                        key=lambda elem: elem.level_space)
+        for elem in leaves:
+            self.refine_space(elem)
+
+    def uniform_refine_space""", """        leaves = sorted(leaves, key=lambda elem: elem.level_space)
+        for elem in leaves:
+            self.refine_space(elem)
+
+    def uniform_refine_space"""), rule='R-stale')
+m('c02-closure-le', ['C02'],
+  (M, "                if nbr_elem.levels[ax] < elem.levels[ax]:",
+   "                if nbr_elem.levels[ax] <= elem.levels[ax]:"),
+  rule='R-closure')
+m('c02-closure-other-axis', ['C02'],
+  (M, "                if nbr_elem.levels[ax] < elem.levels[ax]:",
+   "                if nbr_elem.levels[1 - ax] < elem.levels[ax]:"),
+  rule='R-closure')
+m('c02-closure-axis-edges', ['C02'],
+  (M, """        for edge in elem.edges:
+            for nbr_elem in edge.neighbour_elements():""",
+   """        for edge in elem.edges_axis(ax):
+            for nbr_elem in edge.neighbour_elements():"""), rule='R-closure')
+m('c02-child-levels', ['C02'],
+  (M, """                                    edges[3].children[1]),
+                             levels=(elem.level_time + 1, elem.level_space),""",
+   """                                    edges[3].children[1]),
+                             levels=(elem.level_time + 1, elem.level_space + 1),"""),
+  rule='R-children')
+m('c02-child-edge-swap', ['C02'],
+  (M, """            child1 = Element(edges=(edges[0].children[0], e1,
+                                    edges[2].children[1], edges[3]),""",
+   """            child1 = Element(edges=(edges[0].children[1], e1,
+                                    edges[2].children[1], edges[3]),"""),
+  rule='R-children')
+m('c02-globidx', ['C02'],
+  (M, "        child2.glob_idx = self.N_elements + 1",
+   "        child2.glob_idx = self.N_elements"), rule='R-leafbook')
+m('c02-counter', ['C02'],
+  (M, "        self.N_elements += 2", "        self.N_elements += 1"),
+  rule='R-leafbook')
+m('c02-no-pop', ['C02'],
+  (M, "        self.leaf_elements.pop(elem)\n", ""), rule='R-leafbook')
+m('c02-reuse-glued', ['C02', 'C10'],
+  (M, "        if not edge.glued and edge.nbr_edge and edge.nbr_edge.children:",
+   "        if edge.nbr_edge and edge.nbr_edge.children:"), rule='R-vreuse')
+m('c02-vertex-idx', ['C02'],
+  (M, "                                  idx=len(self.vertices))\n            self.vertices.append(child_vertex)",
+   "                                  idx=len(self.vertices) + 1)\n            self.vertices.append(child_vertex)"),
+  rule='R-vreuse')
+m('c02-foreign-writer', ['C02', 'C10'],
+  (EE, "        time_neighbours = [elem]\n",
+   "        time_neighbours = [elem]\n        elem.children = []\n"),
+  rule='R-own')
+
+m('c10-cross-same', ['C10', 'C02'],
+  (M, "                self.children[0].nbr_edge = self.nbr_edge.children[1]",
+   "                self.children[0].nbr_edge = self.nbr_edge.children[0]"),
+  rule='R-cross')
+m('c10-unpaired', ['C10', 'C02'],
+  (M, "                self.nbr_edge.children[1].nbr_edge = self.children[0]\n",
+   ""), rule='R-pair')
+m('c10-glued-not-inherited', ['C10', 'C02'],
+  (M, "            self.glued = parent.glued", "            self.glued = False"),
+  rule='R-inherit')
+m('c10-ladder-parent', ['C10'],
+  (M, "        if not self.nbr_edge and self.parent and self.parent.nbr_edge:",
+   "        if not self.nbr_edge and self.parent:"), rule='R-ladder')
+m('c10-ladder-swap-twin', ['C10'],
+  (M, """        if self.nbr_edge and not self.nbr_edge.children:
+            return [self.nbr_edge.elem]
+
+        # If we have a neighbour edge that is refined, return its children.
+        if self.nbr_edge and self.nbr_edge.children:
+            return [child.elem for child in self.nbr_edge.children]
+""", """        if self.nbr_edge and self.nbr_edge.children:
+            return [child.elem for child in self.nbr_edge.children]
+
+        if self.nbr_edge and not self.nbr_edge.children:
+            return [self.nbr_edge.elem]
+"""), expect='silent')
+m('c10-glue-wrong-edge', ['C10'],
+  (M, "                roots[j * N_x].edges[3].nbr_edge = roots[-1].edges[1]",
+   "                roots[j * N_x].edges[3].nbr_edge = roots[-1].edges[3]"),
+  rule='R-pair')
+m('c10-glue-first-row', ['C10'],
+  (M, """                roots[j * N_x].edges[3].nbr_edge = roots[-1].edges[1]
+                roots[-1].edges[1].nbr_edge = roots[j * N_x].edges[3]""",
+   """                roots[0].edges[3].nbr_edge = roots[-1].edges[1]
+                roots[-1].edges[1].nbr_edge = roots[0].edges[3]"""),
+  rule='R-wiring')
+m('c10-boundary-flag', ['C10'],
+  (M, "                if i + 1 == N_x: e2.on_boundary = True",
+   "                if i == N_x: e2.on_boundary = True"), rule='R-wiring')
